@@ -24,6 +24,9 @@ func (x *Exec) safeSpec(env *Env, e *SX, what string) (t Term) {
 	return env.eval(e)
 }
 
+// safeSpecRaw evaluates a contract expression and lets a specErr propagate (the caller decides what it means).
+func (x *Exec) safeSpecRaw(env *Env, e *SX) Term { return env.eval(e) }
+
 func (x *Exec) runGhost(st *State, stmts []GhostStmt, where string, n ast.Node) {
 	for i, gs := range stmts {
 		env := x.specEnv(st)
